@@ -6,7 +6,7 @@ from ..engines import mapplumbing as M
 def run(ctx):
     # language-level slips in the modules the property is anchored in (engine Y)
     from ..engines import gotchas as GY
-    GY.run(ctx, ('strategies.rule', 'strategies.constructor.cartesian', 'strategies.constructor.disjoint', 'specification'))
+    GY.run(ctx, ('strategies.rule', 'strategies.constructor.cartesian', 'strategies.constructor.disjoint', 'specification', 'utils'))
     ctx.floor("Y", 1)
     ctx.extra["explanation"] = (
         "static analysis (ast, no execution): the forward and backward maps of the derived rule "
